@@ -8,7 +8,7 @@ from ..pattern import pmatch, pfind, pall
 from ..absval import Lin, Undecided, linform
 from ..core import (alpha, AnalysisError, call_name, dotted, is_const, kwarg, local_defs, norm, origin, parent_map,
                     walk_local)
-from ..facts import if_leaves, guards_of, returns_of, enclosing_loops, default_of
+from ..facts import iterations, if_leaves, guards_of, returns_of, enclosing_loops, default_of
 from ..rules.memo import id_calls, memo_sites
 
 BR = "synkit/Synthesis/Reactor/batch_reactor.py"
@@ -195,24 +195,47 @@ def agreement(rep, sites):
     # SynCRN._run_tasks
     fi = rep.f(CRN, "SynCRN._run_tasks")
     pcs = [p for p in sites[(CRN, "SynCRN._run_tasks")] if p[0] == "executor.map"]
+    pm = parent_map(fi.node)
+    fdefs = local_defs(fi.node)
     rr = [r for r in returns_of(fi.node) if isinstance(r.value, ast.Name)]
     RES = rr[-1].value.id if rr else None
-    ser = [c for c in walk_local(fi.node) if isinstance(c, ast.Call) and norm(c.func) == f"{RES}.append" and isinstance(c.args[0], ast.Call)]
+    # serial application: worker(t) for every t of an iteration, collected in order (appended in a loop, or a list comprehension)
+    ser = []  # (call, iteration)
+    for c_ in walk_local(fi.node):
+        if isinstance(c_, ast.Call) and isinstance(c_.func, ast.Name) and len(c_.args) == 1 and not c_.keywords:
+            its_ = iterations(pm, c_, fi.node)
+            if not its_ or norm(c_.args[0]) != norm(its_[0].target):
+                continue
+            par_ = pm.get(c_)
+            collected = (isinstance(par_, ast.ListComp) and par_.elt is c_ and len(par_.generators) == 1 and not its_[0].conds) or \
+                (isinstance(par_, ast.Call) and RES and norm(par_.func) == f"{RES}.append" and isinstance(its_[0].holder, ast.For)
+                 and not guards_of(pm, par_, its_[0].holder))
+            if collected:
+                ser.append((c_, its_[0]))
     if pcs and ser:
         k, c, callee, args, it, tgt, _ = pcs[0]
-        sc = ser[0].args[0]
-        pm = parent_map(fi.node)
-        lp = enclosing_loops(pm, ser[0], fi.node)
-        ok = callee == norm(sc.func) and lp and norm(lp[0].iter) == it and [norm(a) for a in sc.args] == [norm(lp[0].target)]
-        rep.ob("O14.3", "R8", fi, ok, f"serial {norm(sc)} for {norm(lp[0].target) if lp else '?'} in {norm(lp[0].iter) if lp else '?'} / parallel ex.map({callee}, {it})",
+        sc, sit = ser[0]
+        ok = callee == norm(sc.func) and norm(sit.iter) == it
+        rep.ob("O14.3", "R8", fi, ok, f"serial {norm(sc)} for {norm(sit.target)} in {norm(sit.iter)} / parallel ex.map({callee}, {it})",
                "network expansion: same worker over the same task list in both branches")
-        # the parallel branch stores what the worker returned, unchanged
-        par = [c2 for c2 in walk_local(fi.node) if isinstance(c2, ast.Call) and norm(c2.func) == f"{RES}.append" and isinstance(c2.args[0], ast.Tuple)]
-        ploop = [l for l in walk_local(fi.node) if isinstance(l, ast.For) and l.iter is c]
-        ok2 = bool(par) and bool(ploop) and norm(par[0].args[0]) == norm(ploop[0].target) if par and ploop else False
-        if par and ploop:
-            ok2 = [norm(e) for e in par[0].args[0].elts] == [norm(e) for e in ploop[0].target.elts]
-        rep.ob("O14.3", "R8", fi, ok2, par[0] if par else "results.append", "the parallel branch records each worker result unchanged, in order")
+        # the parallel branch stores what the worker returned, unchanged: list(ex.map(..)) / for r in ex.map(..): results.append(r)
+        ok2 = False
+        construct = "results.append"
+        up = pm.get(c)
+        if isinstance(up, ast.Call) and norm(up.func) == "list" and len(up.args) == 1:
+            holder = pm.get(up)
+            ok2 = isinstance(holder, ast.Return) or (isinstance(holder, ast.Assign) and RES is not None and norm(holder.targets[0]) == RES)
+            construct = up
+        elif isinstance(up, ast.Call) and RES and norm(up.func) == f"{RES}.extend":
+            ok2, construct = True, up
+        else:
+            ploop = [l for l in walk_local(fi.node) if isinstance(l, ast.For) and l.iter is c]
+            par = [c2 for l in ploop for c2 in walk_local(l) if isinstance(c2, ast.Call) and RES and norm(c2.func) == f"{RES}.append" and len(c2.args) == 1]
+            if ploop and len(par) == 1 and not guards_of(pm, par[0], ploop[0]):
+                a0, tg_ = par[0].args[0], ploop[0].target
+                ok2 = norm(a0) == norm(tg_) or (isinstance(a0, ast.Tuple) and isinstance(tg_, ast.Tuple) and [norm(e) for e in a0.elts] == [norm(e) for e in tg_.elts])
+                construct = par[0]
+        rep.ob("O14.3", "R8", fi, ok2, construct, "the parallel branch records each worker result unchanged, in order")
     elif not any(p[0] in ("unordered", "submit") for p in sites[(CRN, "SynCRN._run_tasks")]):
         rep.ob("O14.3", "R8", fi, None, "_run_tasks", "serial/parallel pair not recognised", node=fi.node)
     w = rep.f(CRN, "_apply_rule_worker") if rep.repo.maybe_func(CRN, "_apply_rule_worker") else None
@@ -317,32 +340,33 @@ def dedupe(rep):
 # ------------------------------------------------------------------ batching
 def batching(rep):
     bd = rep.f(BC, "BatchCluster.batch_dicts")
-    loops = [l for l in walk_local(bd.node) if isinstance(l, ast.For)]
-    rep.need("BATCH", len(loops), 1, "batch loop in batch_dicts")
-    lp = loops[0]
-    ok = None
+    # (normal form N11: an accumulate loop `out = []; for i in R: out.append(E)` reads `out = [E for i in R]`)
     P = bd.params
+    bdefs = local_defs(bd.node)
+    brets = returns_of(bd.node)
+    comp = origin(bdefs, brets[-1].value) if brets else None
+    comps = [comp] if isinstance(comp, ast.ListComp) and len(comp.generators) == 1 else []
+    rep.need("BATCH", len(comps), 1, "batch loop in batch_dicts")
+    g = comp.generators[0]
+    ok = None
     try:
-        r = lp.iter
+        r = g.iter
         a = [norm(x).replace(" ", "") for x in r.args]
-        ok = call_name(r) == "range" and a == ["0", f"len({P[0]})", P[1]]
+        ok = call_name(r) == "range" and a == ["0", f"len({P[0]})", P[1]] and not g.ifs
     except Exception:
         ok = None
-    rep.ob("O14.4", "BATCH", bd, ok, lp.iter, "batches start at 0, step by batch_size and run to the end of the list")
-    i = norm(lp.target)
-    brets = returns_of(bd.node)
-    BOUT = norm(brets[-1].value) if brets else None
-    apps = [c for c in walk_local(lp) if isinstance(c, ast.Call) and norm(c.func) == f"{BOUT}.append"]
+    rep.ob("O14.4", "BATCH", bd, ok, g.iter, "batches start at 0, step by batch_size and run to the end of the list")
+    i = norm(g.target)
     ok = False
-    if apps and isinstance(apps[0].args[0], ast.Subscript) and isinstance(apps[0].args[0].slice, ast.Slice):
-        sl = apps[0].args[0].slice
+    if isinstance(comp.elt, ast.Subscript) and isinstance(comp.elt.slice, ast.Slice):
+        sl = comp.elt.slice
         try:
             lo = linform(sl.lower, lambda n: n.id if isinstance(n, ast.Name) else None)
             hi = linform(sl.upper, lambda n: n.id if isinstance(n, ast.Name) else None)
-            ok = lo == Lin({i: 1}) and hi == Lin({i: 1, P[1]: 1}) and norm(apps[0].args[0].value) == P[0] and sl.step is None
+            ok = lo == Lin({i: 1}) and hi == Lin({i: 1, P[1]: 1}) and norm(comp.elt.value) == P[0] and sl.step is None
         except Undecided:
             ok = None
-    rep.ob("O14.4", "BATCH", bd, ok, apps[0] if apps else "batches.append", "each batch is the contiguous slice [i, i + batch_size): every entry lands in exactly one batch, order kept")
+    rep.ob("O14.4", "BATCH", bd, ok, comp.elt, "each batch is the contiguous slice [i, i + batch_size): every entry lands in exactly one batch, order kept")
     ft = rep.f(BC, "BatchCluster.fit")
     pm = parent_map(ft.node)
     d = local_defs(ft.node)
@@ -352,10 +376,29 @@ def batching(rep):
     lp = bl[0]
     frets = returns_of(ft.node)
     fm = pmatch("($od, $ot)", frets[-1].value) if frets else None
-    bb = pall([f"$pd, $nt = self.cluster({norm(lp.target)}, $ot, rule_key, attribute_key)", "$od.extend($pd)", "$ot = $nt"], lp, fm) if fm else None
     cl = [c for c in walk_local(lp) if isinstance(c, ast.Call) and norm(c.func) == "self.cluster"]
-    rep.ob("O14.4", "BATCH", ft, bb is not None, cl[0] if cl else "self.cluster", "each batch is classified against the templates accumulated so far")
-    ok = bb is not None
+    threaded = concatenated = False
+    call_ok = False
+    if fm and len(cl) == 1:
+        OD, OT = fm["od"], fm["ot"]
+        um = [(st, b_) for st, b_ in pfind("$pd, $nt = $$call", lp) if st.value is cl[0]]
+        call_ok = bool(um) and [norm(a_) for a_ in cl[0].args] == [norm(lp.target), OT, "rule_key", "attribute_key"] and not cl[0].keywords
+        if um:
+            st, b_ = um[0]
+            PD, NT = b_["pd"], b_["nt"]
+            later = [x for x in lp.body if x.lineno > st.lineno]
+            # the template list handed to the next batch is the one this batch returned
+            rebinding = [x for x in walk_local(lp) if isinstance(x, (ast.Assign, ast.AugAssign)) and any(
+                isinstance(t_, ast.Name) and t_.id == OT for t_ in (x.targets if isinstance(x, ast.Assign) else [x.target]))]
+            threaded = (NT == OT and not rebinding) or (NT != OT and len(rebinding) == 1 and any(x is rebinding[0] for x in later)
+                                                       and pmatch(f"{OT} = {NT}", rebinding[0]) is not None)
+            grow = [x for x in later if pmatch(f"{OD}.extend({PD})", x) is not None or pmatch(f"{OD} += {PD}", x) is not None
+                    or pmatch(f"{OD} = {OD} + {PD}", x) is not None]
+            others = [x for x in walk_local(lp) if isinstance(x, (ast.Assign, ast.AugAssign)) and x not in grow and any(
+                isinstance(t_, ast.Name) and t_.id == OD for t_ in (x.targets if isinstance(x, ast.Assign) else [x.target]))]
+            concatenated = len(grow) == 1 and not others
+    rep.ob("O14.4", "BATCH", ft, call_ok, cl[0] if cl else "self.cluster", "each batch is classified against the templates accumulated so far")
+    ok = threaded and concatenated
     rep.ob("O14.4", "BATCH", ft, ok, "output_data.extend(processed_data); output_templates = new_templates", "results are concatenated in batch order and the templates are threaded to the next batch")
     exits = [n for n in walk_local(lp) if isinstance(n, (ast.Break, ast.Continue, ast.Return))]
     rep.ob("O14.4", "BATCH", ft, not exits, [type(e).__name__ for e in exits], "no batch is skipped")
